@@ -180,15 +180,19 @@ impl ElementMap for TransformerContext {
     }
 }
 
+/// Longest chain of `clip-path` references followed for a bounding box
+const MAX_CLIP_CHAIN: usize = 100;
+
 impl TransformerContext {
     /// Bounding box of `el`, following `clip-path` references (a clipPath may itself be
     /// clipped; a cyclic chain must not recurse forever). A chain without a cycle visits
     /// every registered element at most once, so one longer than the element table is
-    /// cyclic - the (nesting) depth limit is not involved.
+    /// cyclic; every link costs a stack frame, so the length is also capped by a
+    /// constant. The (nesting) depth limit is not involved.
     fn element_bbox_at_depth(&self, el: &SvgElement, depth: usize) -> Result<Option<BoundingBox>> {
-        if depth > self.elem_map.len() {
+        if depth > self.elem_map.len().min(MAX_CLIP_CHAIN) {
             return Err(SvgdxError::CircularRefError(
-                "clip-path references form a cycle".to_owned(),
+                "clip-path references form a cycle (or too long a chain)".to_owned(),
             ));
         }
         let target_el = el.get_target_element(self)?;
